@@ -131,11 +131,18 @@ def _table_case(ctx, cls, allowed, combo, finished, faults=None, reads=0,
     outcomes, _i = extract(world, thunk, depth=6)
     key = 'InspectWrapper.formats/format'
     notes = inexact_notes(outcomes)
-    if notes or len(outcomes) != 1 or outcomes[0].kind != 'return':
+    if notes or not outcomes or any(o.kind != 'return' for o in outcomes):
         rep.undecided(rule, key, '%s: %s %s' % (label, [
             o.brief()[:80] for o in outcomes][:2], notes))
         return
-    v = outcomes[0].value
+    # several paths (e.g. a branch on the emptiness of the chunk read from
+    # the source) are all held to the same table entry
+    for o in outcomes:
+        _table_entry(rep, rule, key, label, o.value, plans, allowed, combo,
+                     finished)
+
+
+def _table_entry(rep, rule, key, label, v, plans, allowed, combo, finished):
     got_formats, got_format = v.items
     # reference
     considered = [nm for nm in NAMES if allowed is None or not allowed or
